@@ -17,12 +17,14 @@ import (
 	"github.com/thushan/olla/internal/core/ports"
 	"github.com/thushan/olla/internal/logger"
 	"github.com/thushan/olla/internal/router"
+	"github.com/thushan/olla/internal/util"
 )
 
 // SecurityAdapters provides middleware for security chain
 type SecurityAdapters struct {
 	securityChain *ports.SecurityChain
 	logger        logger.StyledLogger
+	rateLimits    config.ServerRateLimits
 }
 
 // CreateChainMiddleware creates middleware that applies the full security chain with enhanced logging
@@ -32,29 +34,37 @@ func (s *SecurityAdapters) CreateChainMiddleware() func(http.Handler) http.Handl
 		withLogging := middleware.EnhancedLoggingMiddleware(s.logger)(next)
 		withAccessLogging := middleware.AccessLoggingMiddleware(s.logger)(withLogging)
 
-		return http.HandlerFunc(func(w http.ResponseWriter, r *http.Request) {
-			if s.securityChain != nil {
-				// Create security request from HTTP request
-				secReq := ports.SecurityRequest{
-					ClientID:      r.RemoteAddr, // This would normally be extracted better
-					Endpoint:      r.URL.Path,
-					Method:        r.Method,
-					BodySize:      r.ContentLength,
-					HeaderSize:    0, // Would need to calculate
-					Headers:       r.Header,
-					IsHealthCheck: r.URL.Path == "/internal/health",
-				}
-
-				result, err := s.securityChain.Validate(r.Context(), secReq)
-				if err != nil || !result.Allowed {
-					// Write appropriate error response
-					http.Error(w, "Security validation failed", http.StatusForbidden)
-					return
-				}
-			}
-			withAccessLogging.ServeHTTP(w, r)
-		})
+		return s.enforce(withAccessLogging)
 	}
+}
+
+// enforce runs the security chain (rate limits, size limits) in front of next
+func (s *SecurityAdapters) enforce(next http.Handler) http.Handler {
+	return http.HandlerFunc(func(w http.ResponseWriter, r *http.Request) {
+		if s.securityChain != nil {
+			// Create security request from HTTP request
+			secReq := ports.SecurityRequest{
+				// Limits are per client IP. RemoteAddr carries the ephemeral source port, which
+				// would hand every new TCP connection a fresh bucket.
+				ClientID:      util.GetClientIP(r, s.rateLimits.TrustProxyHeaders, s.rateLimits.TrustedProxyCIDRsParsed),
+				Endpoint:      r.URL.Path,
+				Method:        r.Method,
+				BodySize:      r.ContentLength,
+				HeaderSize:    0, // Would need to calculate
+				Headers:       r.Header,
+				IsHealthCheck: r.URL.Path == "/internal/health",
+			}
+
+			result, err := s.securityChain.Validate(r.Context(), secReq)
+			if err != nil || !result.Allowed {
+				// Write appropriate error response
+				http.Error(w, "Security validation failed", http.StatusForbidden)
+				return
+			}
+		}
+
+		next.ServeHTTP(w, r)
+	})
 }
 
 // CreateRateLimitMiddleware creates middleware that only applies rate limiting with enhanced logging
@@ -127,6 +137,7 @@ func NewApplication(
 	securityAdapters := &SecurityAdapters{
 		securityChain: securityChain,
 		logger:        logger,
+		rateLimits:    cfg.Server.RateLimits,
 	}
 
 	// Create route registry
